@@ -168,5 +168,12 @@ def rules(ctx, db):
         ctx.ob("R4", "Slice::new-caller:" + f.name, f.id.startswith("compio_buf::"), "views are only created inside compio-buf", f)
 
 
+def rules_all(ctx, db):
+    rules(ctx, db)
+    if ctx.tier == "thorough" and ctx.cfg == "A":
+        from .. import witness
+        witness.obligations(ctx, "C10")
+
+
 def check(tier):
-    return engine.run("C10", tier, rules, NOT_DECIDED, [])
+    return engine.run("C10", tier, rules_all, NOT_DECIDED, [])
